@@ -4,6 +4,7 @@ import (
 	"errors"
 	"fmt"
 	"math"
+	"math/big"
 	"regexp"
 	"strconv"
 	"strings"
@@ -17,6 +18,12 @@ func parseNumber(value string) float64 {
 
 	if value == "" {
 		return 0
+	}
+
+	if !isStringNumericLiteral(value) {
+		// strconv accepts more than ECMA 262 9.3.1: inf, infinity, nan,
+		// hexadecimal floats, underscores between digits.
+		return math.NaN()
 	}
 
 	var parseFloat bool
@@ -39,6 +46,12 @@ func parseNumber(value string) float64 {
 
 	number, err := strconv.ParseInt(value, 0, 64)
 	if err != nil {
+		if errors.Is(err, strconv.ErrRange) {
+			// A HexIntegerLiteral has no upper limit.
+			integer, _ := new(big.Int).SetString(value[2:], 16)
+			float, _ := new(big.Float).SetInt(integer).Float64()
+			return float
+		}
 		return math.NaN()
 	}
 	return float64(number)
